@@ -40,6 +40,16 @@ NUMERIC_LOOKING = ["0", "1", "2", "7", "-3", "+4", "10", "255", "1e2", "2.5e1", 
                    "12.50", "-0.0", "1_0", "Infinity", "-Infinity", "inf", "NaN", "nan", "sNaN", "-NaN123"]
 
 
+# edge-of-domain label texts: empty, blank, texts that read like Python constants, non-ASCII, quotes, very long
+EDGE_LABELS = ["", " ", "\t", "None", "False", "0", "L 0", "L0 ", "\u00fcn\u00ef\u00b0", "'q\"", "a" * 200]
+EDGE_SET = set(EDGE_LABELS)
+
+
+def edge_key(key, lab):
+    """violation keys of their own for label checks that involve an edge label"""
+    return ("edge-" + key) if lab in EDGE_SET else key
+
+
 def mk(m, e):
     return D((1 if m < 0 else 0, tuple(int(c) for c in str(abs(m))), e))
 
@@ -237,7 +247,10 @@ def run(chk):
                 "arbitrary decimals incl. exact .5 ties.  histories on one live Signal object: after each edit of the value table "
                 "(add_values, values = dict, values[k] = v, del, pop, clear, update, a label moving to another key) and of "
                 "factor/offset/size/is_signed/set_min(None)/set_max(None), every label, removed label, table key and range end is "
-                "converted again and compared with the oracle for the CURRENT state and with a freshly built signal.  non-trivial = scaling other than (1, 0) with raw != 0, or a table "
+                "converted again and compared with the oracle for the CURRENT state and with a freshly built signal.  label texts include "
+                "the empty string, blanks, 'None', non-ASCII and very long texts.  every signal (and every history step, on a frame and a "
+                "matrix built once before the edits) is also reached through Frame.decode / Frame.unpack / CanMatrix.decode "
+                "(DecodedSignal.raw_value/phys_value/named_value) and Frame.encode by label.  non-trivial = scaling other than (1, 0) with raw != 0, or a table "
                 "look-up, or a rounding decimal operation; distinct by inputs" % len(SCALINGS))
     ok = chk.build_and_audit()
     cm = core.import_impl()
@@ -282,6 +295,68 @@ def run(chk):
             return format(mk(m, e), rng.choice(["", "E", "f"]) if -8 < e <= 0 else "E")
         scalings.append((rdec(12), rdec(12) if rng.random() < 0.8 else "0"))
 
+    # ---- the other entry points to the same conversions: a frame (and a matrix) that carries the signal
+    AID = C.ArbitrationId(0x123, extended=False)
+
+    def make_routes(sig):
+        fr = C.Frame("F", arbitration_id=AID, size=8)
+        fr.add_signal(sig)
+        db = C.CanMatrix()
+        db.add_frame(fr)
+        return fr, db
+
+    def payload_of(raw, size):
+        """8 payload bytes with the two's complement of raw in the low `size` bits (Intel, start bit 0)"""
+        return (raw & ((1 << size) - 1)).to_bytes(8, "little")
+
+    def frame_probe(sig, fr, db, size, lo, hi, table, F, O, env, raws, inp, ckey):
+        """decode payloads through Frame.decode / Frame.unpack / CanMatrix.decode and read raw_value, phys_value, named_value of
+        the DecodedSignal; encode by label through Frame.encode.  Oracle: the table (a dict) and raw*F+O."""
+        name = sig.name
+        for raw in raws:
+            data = payload_of(raw, size)
+            inside = inside_envelope(raw, *env)
+            for route, fn in (("Frame.decode", fr.decode), ("Frame.unpack", fr.unpack), ("CanMatrix.decode", lambda d: db.decode(AID, d))):
+                chk.count("frame-route:" + route)
+                chk.case(("frame-route", ckey, route, raw), True)
+                try:
+                    ds = fn(data)[name]
+                    rv, pv, nv = ds.raw_value, ds.phys_value, ds.named_value
+                except Exception as e:
+                    chk.violation("frame-route-exception", "decoding a payload through %s raised" % route, dict(inp, raw=raw, route=route), None, repr(e))
+                    continue
+                if rv != raw or type(rv) is not int:
+                    chk.violation("frame-route-raw", "raw value decoded through a frame is not the payload's value", dict(inp, raw=raw, route=route), raw, rv)
+                    continue
+                if inside and (not isinstance(pv, D) or Fraction(pv) != raw * F + O):
+                    chk.violation("frame-route-phys", "phys_value of a frame-decoded signal is not raw*factor+offset", dict(inp, raw=raw, route=route), str(raw * F + O), str(pv))
+                if raw in table:
+                    chk.count("frame-route:labelled-raw")
+                    if table[raw] in EDGE_SET:
+                        chk.count("frame-route:edge-labelled-raw")
+                    if type(nv) is not str or nv != table[raw]:
+                        chk.violation("frame-route-named", "named_value of a frame-decoded signal is not the label of its raw value",
+                                      dict(inp, raw=raw, route=route), repr(table[raw]), repr(nv))
+                elif not isinstance(nv, D) or not isinstance(pv, D) or nv.as_tuple() != pv.as_tuple():
+                    chk.violation("frame-route-named", "named_value of an unlabelled frame-decoded raw value is not the scaled number",
+                                  dict(inp, raw=raw, route=route), str(pv), repr(nv))
+        # encoding by label: Frame.encode({name: label}) writes the label's key
+        seen = set()
+        for k, lab in table.items():
+            if lab in seen or len(seen) >= 4:
+                continue
+            seen.add(lab)
+            if not (lo <= k <= hi):
+                continue
+            chk.count("frame-route:encode-by-label")
+            try:
+                enc = bytes(fr.encode({name: lab}))
+            except Exception as e:
+                enc = repr(e)
+            if enc != payload_of(k, size):
+                chk.violation("frame-route-encode-label", "Frame.encode of a label does not write the label's raw key",
+                              dict(inp, label=lab), payload_of(k, size).hex(), enc.hex() if isinstance(enc, bytes) else enc)
+
     def make_table(lo, hi, size):
         """source mapping (list of (key, label-string) in insertion order; keys int or str) and the items after int()"""
         n = rng.choice([0, 0, 1, 2, 3, 5, 8, 20])
@@ -291,6 +366,8 @@ def run(chk):
             lab = "L%d" % (j if rng.random() < 0.85 else rng.randrange(0, max(1, j)))
             if rng.random() < 0.3:
                 lab = rng.choice(NUMERIC_LOOKING)     # a value choice spelled like a number is still a label
+            elif rng.random() < 0.15:
+                lab = rng.choice(EDGE_LABELS)         # empty / blank / odd texts are labels all the same
             key = str(k) if rng.random() < 0.25 else k
             src.append((key, lab))
         d = {}
@@ -416,7 +493,7 @@ def run(chk):
                 chk.violation("decoded-phys", "DecodedSignal.phys_value differs from raw2phys", dict(inp, raw=raw), str(phys), str(pv))
             if raw in exp_table:
                 if nv != exp_table[raw]:
-                    chk.violation("named-label", "named_value is not the label of the raw value", dict(inp, raw=raw), exp_table[raw], str(nv))
+                    chk.violation(edge_key("named-label", exp_table[raw]), "named_value is not the label of the raw value", dict(inp, raw=raw), exp_table[raw], str(nv))
             elif nv.__class__ is not D or nv.as_tuple() != pt:
                 chk.violation("named-scaled", "named_value of an unlabelled raw value is not the scaled number", dict(inp, raw=raw), str(phys), str(nv))
             if raw in tie_raws:
@@ -445,6 +522,8 @@ def run(chk):
             if lab in labs:
                 keys = [k for k, v in exp_table.items() if v == lab]
                 chk.count("label-unique" if len(keys) == 1 else "label-duplicated")
+                if lab in EDGE_SET:
+                    chk.count("label-edge:" + ("empty" if lab == "" else "blank" if not lab.strip() else "other"))
                 chk.case((fs, os_, size, signed, "label", lab, tuple(exp_table.items())), True)
                 if kind != "invalid":
                     # does the label, read as a number, scale to another raw value than its key?
@@ -454,14 +533,14 @@ def run(chk):
                         as_num = None
                     chk.count("label-numeric-looking:%s" % ("scales-elsewhere" if as_num != keys[0] else "coincides-with-key"))
                 if r != keys[0] or type(r) is not int:
-                    chk.violation("label-to-raw", "a label does not convert to its raw key", dict(inp, label=lab), keys[0], r)
+                    chk.violation(edge_key("label-to-raw", lab), "a label does not convert to its raw key", dict(inp, label=lab), keys[0], r)
                 elif len(keys) == 1:
                     try:
                         nv = C.DecodedSignal(r, sig).named_value
                     except Exception as e:
                         nv = repr(e)
                     if nv != lab:
-                        chk.violation("label-roundtrip", "label -> raw -> named value does not return the label", dict(inp, label=lab), lab, str(nv))
+                        chk.violation(edge_key("label-roundtrip", lab), "label -> raw -> named value does not return the label", dict(inp, label=lab), lab, str(nv))
                 out405.append(got)
             elif lab == "zz":
                 out405.append(got)
@@ -472,6 +551,11 @@ def run(chk):
             out406.append(got if isinstance(got[-1], int) else [0])
         add(405, [header, tflat, [lab_id(l) for l in labs] + [0]], out405, dict(signal=inp, labels=labs + ["zz"]))
         add(406, [header, tflat, args406], out406, dict(signal=inp, str_arguments=texts406))
+        # -- the same conversions reached through a frame / a matrix carrying this signal
+        if 1 <= size <= 64:
+            fr, db = make_routes(sig)
+            praws = sorted({k for k in list(exp_table)[:6] if lo <= k <= hi} | {lo, hi, rng.randrange(lo, hi + 1), rng.randrange(lo, hi + 1)})
+            frame_probe(sig, fr, db, size, lo, hi, exp_table, F, O, (mf, ef, mo, eo), praws, inp, (fs, os_, size, signed))
         # -- phys2raw of arbitrary decimals (rounding mechanism): exact quotient representable => round-half-even of it
         vs = []
         for _ in range(6 if not thorough else 12):
@@ -562,11 +646,11 @@ def run(chk):
     # ---------------- 4. histories on ONE live Signal object ----------------
     # The value table and the scaling fields are public and mutable.  After every edit, through every public route, the
     # conversions must answer for the CURRENT table / fields (= what a freshly built signal with them answers).
-    LABEL_POOL = ["L%d" % i for i in range(8)] + ["1", "2", "7", "2.5e1", " 7 ", "NaN", "1e2", "-3"]
+    LABEL_POOL = ["L%d" % i for i in range(8)] + ["1", "2", "7", "2.5e1", " 7 ", "NaN", "1e2", "-3"] + ["", "", " ", "None", "0", "\u00fcn\u00ef\u00b0"]
     FACTORS = ["1", "0.1", "0.3", "-0.25", "2.5E+3", "0.333333333333", "1E-7", "5", "0.5", "-7E-3"]
     OFFSETS = ["0", "-40", "1E+3", "0.0625", "-327.68", "7", "-0.50", "1E-20"]
 
-    def check_live(sig, cur, size, signed, Fd, Od, hist, gone):
+    def check_live(sig, cur, size, signed, Fd, Od, hist, gone, routes=None):
         inp = dict(history=list(hist), size=size, is_signed=signed, factor=str(Fd), offset=str(Od), current_values={repr(k): v for k, v in cur.items()})
         F, O = Fraction(Fd), Fraction(Od)
         mf, ef = tup(Fd)
@@ -595,11 +679,13 @@ def run(chk):
                 if lab in cur.values():
                     exp = next(k for k, v in cur.items() if v == lab)
                     chk.count("history-label-lookups")
+                    if lab in EDGE_SET:
+                        chk.count("history-label-edge:" + ("empty" if lab == "" else "blank" if not lab.strip() else "other"))
                     if r != exp or type(r) is not int:
-                        chk.violation("history-label-to-raw", "after editing the value table a label does not convert to its current raw key",
+                        chk.violation(edge_key("history-label-to-raw", lab), "after editing the value table a label does not convert to its current raw key",
                                       dict(inp, label=lab), exp, r)
                     elif list(cur.values()).count(lab) == 1 and sig.raw2phys(r, decode_to_str=True) != lab:
-                        chk.violation("history-label-roundtrip", "label -> raw -> named value does not return the label after an edit", dict(inp, label=lab), lab, None)
+                        chk.violation(edge_key("history-label-roundtrip", lab), "label -> raw -> named value does not return the label after an edit", dict(inp, label=lab), lab, None)
                 elif kind == "invalid":
                     chk.count("history-removed-label-lookups")
                     if r is not None:
@@ -629,11 +715,14 @@ def run(chk):
                         chk.violation("history-roundtrip", "phys2raw(raw2phys(raw)) != raw after an edit", dict(inp, raw=raw), raw, back)
                 expn = cur[raw] if raw in cur else phys
                 if (nv != expn) or (raw not in cur and nv.as_tuple() != phys.as_tuple()):
-                    chk.violation("history-named", "named value does not follow the current value table", dict(inp, raw=raw), str(expn), str(nv))
+                    chk.violation(edge_key("history-named", cur.get(raw)), "named value does not follow the current value table", dict(inp, raw=raw), repr(expn), repr(nv))
                 nf = fresh.raw2phys(raw, decode_to_str=True)
                 if type(nf) is not type(nv) or (nf != nv) or fresh.raw2phys(raw).as_tuple() != phys.as_tuple():
                     chk.violation("history-vs-fresh", "raw2phys on the edited signal differs from a freshly built signal", dict(inp, raw=raw), str(nf), str(nv))
                 out403 += [tup(phys), [0, lab_id(nv)] if isinstance(nv, str) else [1] + tup(nv), [1, back]]
+            if routes is not None:
+                # the frame and the matrix were built ONCE around this signal, before the edits
+                frame_probe(sig, routes[0], routes[1], size, lo, hi, cur, F, O, (mf, ef, mo, eo), raws, inp, tuple(hist))
             rr = tuple(sig.calculate_raw_range())
             cmin, cmax = sig.calc_min(), sig.calc_max()
             if rr != (lo, hi):
@@ -670,7 +759,8 @@ def run(chk):
             continue
         hist = ["Signal(size=%d, is_signed=%s, factor=%s, offset=%s, values=%r)" % (size, signed, Fd, Od, cur)]
         gone = []
-        if not check_live(sig, cur, size, signed, Fd, Od, hist, gone):
+        routes = make_routes(sig)
+        if not check_live(sig, cur, size, signed, Fd, Od, hist, gone, routes):
             continue
         for step in range(rng.randrange(3, 9)):
             op = rng.choice(["add_values", "add_values", "assign", "assign", "setitem", "setitem", "setitem", "del", "del", "pop", "clear", "update",
@@ -762,7 +852,7 @@ def run(chk):
                 break
             chk.count("history-op-" + op)
             gone = [l for l in dict.fromkeys(gone + before) if l not in cur.values()]
-            if not check_live(sig, cur, size, signed, Fd, Od, hist, gone):
+            if not check_live(sig, cur, size, signed, Fd, Od, hist, gone, routes):
                 break
     chk.count("histories", nhist)
     chk.sample(dict(history=["Signal(values={0: 'Off', 3: 'L1'})", "phys2raw('L1') -> 3", "values = {5: 'L1', 6: 'New'}", "phys2raw('L1') -> 5",
